@@ -10,15 +10,55 @@ TRUST = ("Trusted: go/ssa's translation of Go; the SMT solvers (z3 5.1.0, z3 4.8
          "memory model and builtin semantics (len/cap/copy/append/make, string conversions); extern/iface contracts listed in the evidence file; "
          "64-bit little-endian target; allocation succeeds, sizes <= 2^47; sequential semantics; termination only where a decreases clause is given.")
 
+TECH = "function contracts (requires/ensures/assigns, loop invariants, decreases) on the real Go code; VCs generated from go/ssa by forward symbolic execution; discharged by z3/cvc5; counterexamples replayed with go test -overlay"
+
 CLAIMS = {
     "C01": dict(
         text="Proof: every in-place writer, appending writer, length function and buffer reader of thrift.Binary is verified against one written-down Thrift "
              "Binary encoding predicate (big-endian words, 4-byte length prefix + bytes) for all values, all buffer contents and all buffer lengths; "
              "writers additionally against their frame (only the advertised bytes are written). Unbounded: parameters are symbolic.",
         note="Stream writer/reader halves (BufferWriter/BufferReader over bufiox) are not yet under contract in this check. " + TRUST,
-        technique="function contracts (requires/ensures/assigns) on the real Go code; weakest-precondition style VCs generated from go/ssa; discharged by z3/cvc5",
         design="5 C01"),
+    "C02": dict(
+        text="Proof: Binary.Skip / skipType / skipstr return exactly the length given by the Thrift Binary grammar (internal/verifspec ValLenD, an executable "
+             "oracle written from the protocol description) for every byte string, type byte and nesting budget; loops by invariants, recursion by the callee contract, "
+             "fast paths by two induction lemmas that are themselves verified.",
+        note="Only the buffer skipper is under contract so far; the stream skipper and the three skip decoders are not yet covered by this check. " + TRUST,
+        design="5 C02"),
+    "C03": dict(
+        text="Proof of absence of run-time panics (index, slice bounds, nil, division, type assertion, unsafe reads inside the allocation) and of the extent clause "
+             "(success implies consumed <= len(input)) for all byte strings and all 256 type bytes, for the thrift.Binary readers, ReadMessageBegin and Skip.",
+        note="FastRead structs, unknown-field conversion, TTHeader decode and the stream paths are not yet under contract in this check. " + TRUST,
+        design="5 C03"),
+    "C08": dict(
+        text="Proof: the buffer skipper agrees with the grammar in both directions: success iff the grammar says a complete well-formed value is present, with the exact extent; "
+             "truncation / unknown type, negative size and exhausted nesting budget (64) each yield an error; recursion is bounded (decreases maxdepth).",
+        note="Buffer skipper only so far (see C02). Nesting budget semantics are those of ValLenD: containers, structs and unknown-typed values consume budget, scalars and strings do not. " + TRUST,
+        design="5 C08"),
+    "C12": dict(
+        text="Proof: WriteMessageBegin / AppendMessageBegin produce the strict-version envelope encoding for every name, type and sequence id; Binary.ReadMessageBegin decodes exactly that "
+             "encoding, rejects every first word without the version marker as BAD_VERSION and every truncation with an error, and reports the exact consumed length.",
+        note="BufferWriter/BufferReader envelope functions and Marshal/UnmarshalFastMsg are not yet under contract in this check. " + TRUST,
+        design="5 C12"),
+    "C15": dict(
+        text="Proof: WriteBinaryNocopy / WriteStringNocopy are byte-identical to the copying writers when no direct writer is attached or the value is below the 4096 threshold; otherwise they "
+             "write exactly the 4-byte length word, return 4, and hand exactly the value with remainCap = len(buf)-4 to the direct writer (ghost log of the NocopyWriter interface contract); "
+             "the no-copy length functions equal the copying ones. Both sides of the threshold are one symbolic length.",
+        note="Struct-level splicing (Base/BaseResp with several large fields) is not covered. " + TRUST,
+        design="5 C15"),
+    "C16": dict(
+        text="Proof: Binary.ReadBinary / ReadString return a value whose backing memory is fresh (not allocated before the call, hence disjoint from the input and from every earlier result) "
+             "with content equal to the input bytes, under both settings of the span cache (the flag is an unconstrained global in the VC).",
+        note="The span allocator itself is a dependency with a trusted contract (Copy returns a [:n:n] slice disjoint from everything handed out before). Stream reader not yet covered. " + TRUST,
+        design="5 C16"),
+    "C17": dict(
+        text="Proof: every failure of the thrift.Binary readers, ReadMessageBegin and Skip is the predeclared protocol exception for its cause: INVALID_DATA for truncation and unknown types, "
+             "NEGATIVE_SIZE, BAD_VERSION, DEPTH_LIMIT; the type ids of the predeclared errors come from symbolically executing the package initialiser.",
+        note="Stream reader error wrapping not yet covered. Objects created by the package initialiser are assumed not to be mutated afterwards. " + TRUST,
+        design="5 C17"),
 }
+for c in CLAIMS.values():
+    c.setdefault("technique", TECH)
 
 NOT_YET = "not claimed yet: contracts for the functions this property depends on are still under construction (see DESIGN.md section 5 for the plan)"
 
